@@ -120,6 +120,11 @@ func (s *TCPServices) RemoveAll(services []string) {
 	}
 }
 
+// ChangeAll flags the tcp services as changed, so all of their maps are written again.
+func (s *TCPServices) ChangeAll() {
+	s.changed = true
+}
+
 // Changed ...
 func (s *TCPServices) Changed() bool {
 	return s.changed
